@@ -40,7 +40,16 @@ def main(argv=None):
         if args.replay:
             with open(args.replay) as fh:
                 rec = json.load(fh)
-            f = mod.replay(ctx, rec)
+            if rec.get('check') == 'build':
+                # a structure the constructor refused: does it still?
+                from . import km
+                try:
+                    km.to_lib(**rec['input'])
+                    f = None
+                except core.Refused as r:
+                    f = r.failure
+            else:
+                f = mod.replay(ctx, rec)
             if f is not None:
                 sys.stdout.write('VIOLATION property=%s replay=%s\n' % (pid, args.replay))
                 sys.stdout.write('  detail: %r\n' % (f,))
@@ -54,7 +63,10 @@ def main(argv=None):
             if f is not None:
                 ctx.violation(f)
         if not ctx.violations:
-            mod.run(ctx)
+            try:
+                mod.run(ctx)
+            except core.Refused as r:
+                ctx.violation(r.failure)
         ev = ctx.write_evidence()
         cov = ev['coverage']
         sys.stdout.write('%s tier=%s seed=%d evaluations=%d distinct_nontrivial=%d '
